@@ -11,7 +11,7 @@ Shapes == CASE ShapeName = "q15" -> {<<2, 2, 2>>, <<3, 2, 1>>, <<2, 3, 1>>, <<1,
             [] ShapeName = "q15b" -> {<<2, 3, 2>>}
             [] ShapeName = "t15" -> {<<2, 3, 2>>, <<3, 3, 1>>, <<3, 2, 2>>}
             [] ShapeName = "q17" -> {<<2, 2, 2>>, <<3, 1, 3>>, <<3, 2, 1>>}
-            [] ShapeName = "t17" -> {<<2, 2, 2>>, <<3, 2, 2>>, <<2, 1, 3>>}
+            [] ShapeName = "t17" -> {<<2, 2, 2>>, <<3, 2, 1>>, <<2, 1, 3>>}
             [] ShapeName = "tiny" -> {<<2, 1, 2>>, <<1, 2, 2>>}
 P15 == <<"C15">>
 P17 == <<"C17">>
